@@ -646,25 +646,17 @@ class _zbl(_Potential_Function_Base):
     :param z1: Atomic number of species i
     :param z2: Atomic number of species j
     :return: Derivative of function"""
-    v = -14.39942*z1*z2*(self.Ck1*math.exp(2.13503407300877*r*(z1**0.23 + z2**0.23)\
-        * (self.Bk2 + self.Bk3 + self.Bk4))\
-        + self.Ck2*math.exp(2.13503407300877*r*(z1**0.23 + z2**0.23)\
-        *(self.Bk1 + self.Bk3 + self.Bk4))\
-        + self.Ck3*math.exp(2.13503407300877*r*(z1**0.23 + z2**0.23)\
-        *(self.Bk1 + self.Bk2 + self.Bk4))\
-        + self.Ck4*math.exp(2.13503407300877*r*(z1**0.23 + z2**0.23)\
-        *(self.Bk1 + self.Bk2 + self.Bk3))\
-        + 2.13503407300877*r*(z1**0.23 + z2**0.23)\
-        *(self.Bk1*self.Ck1*math.exp(2.13503407300877\
-        *r*(z1**0.23 + z2**0.23)*(self.Bk2 + self.Bk3 + self.Bk4))\
-        + self.Bk2*self.Ck2*math.exp(2.13503407300877*r*(z1**0.23 + z2**0.23)\
-        *(self.Bk1 + self.Bk3 + self.Bk4))\
-        + self.Bk3*self.Ck3*math.exp(2.13503407300877*r*(z1**0.23 + z2**0.23)\
-        *(self.Bk1 + self.Bk2 + self.Bk4)) + self.Bk4*self.Ck4\
-        *math.exp(2.13503407300877*r*(z1**0.23 + z2**0.23)\
-        *(self.Bk1 + self.Bk2 + self.Bk3))))\
-        *math.exp(-2.13503407300877*r*(z1**0.23 + z2**0.23)\
-        *(self.Bk1 + self.Bk2 + self.Bk3 + self.Bk4))/r**2
+    # Written in terms of decaying exponentials (as deriv2 is). An earlier, algebraically equivalent,
+    # form multiplied through by exp(+r*(Bk1+Bk2+Bk3+Bk4)/a) which overflows at larger separations
+    # (e.g. r > 12.4 for z1 = z2 = 92) although the potential is perfectly well behaved there.
+    a=(0.8854*0.529)/(float(z1)**0.23 + float(z2)**0.23)
+    phi = 0.0
+    dphi = 0.0
+    for Ck, Bk in ((self.Ck1, self.Bk1), (self.Ck2, self.Bk2), (self.Ck3, self.Bk3), (self.Ck4, self.Bk4)):
+      e = Ck*math.exp((-Bk*r)/a)
+      phi += e
+      dphi -= (Bk/a)*e
+    v = 14.39942*z1*z2*(dphi/r - phi/r**2)
     return v
 
   def deriv2(self, r, z1, z2):
